@@ -1,4 +1,20 @@
+/-
+C10  Semaphore and CapacityLimiter: permits are conserved and never over-granted.
+
+Property theorems only.  Models: `AnyioModel.Sync.Semaphore`, `AnyioModel.Sync.Limiter`;
+invariants and helper lemmas: `SemaphoreProofs`, `LimiterProofs`, `LimiterShape`.  Every
+statement quantifies over all reachable states / all steps from reachable states, i.e. over all
+finite event lists: any number of tasks and borrowers, any initial value / total (incl. infinity),
+any interleaving of acquire / acquire_nowait / acquire_on_behalf_of / release(_on_behalf_of)
+segments, `total_tokens` assignments (raise, lower below the number borrowed, raise again, 0,
+infinity) and cancellations (`fc`: waiter future cancelled, `mc`: native cancellation landing
+after the wake-up was scheduled), fast_acquire on or off.
+
+Semaphore theorems are `C10_sem_*`; the others are about the CapacityLimiter and are stated for
+disciplined histories (`OneWaitPerBorrower`, `ReleaseAfterReturn`; DESIGN section 4).
+-/
 import AnyioModel.Sync.SemaphoreProofs
+import AnyioModel.Sync.LimiterShape
 
 namespace AnyioModel.Props.C10
 open AnyioModel AnyioModel.Sync
@@ -94,5 +110,736 @@ theorem C10_sem_no_barging {s s' : Semaphore.State} {e : Semaphore.Ev} {o : Sema
     · cases hs; simp at hlt
     · cases hs; simp at hlt
     · injection hs with hs; have := hgb _ _ hs; omega
+
+/-- FIFO hand-over: a task's future is resolved (`granted`) only by a `release()` body -- a
+user's `release` or the give-back of a cancelled acquirer -- that finds it as the first entry of
+the queue whose future is not cancelled; everything ahead of it is a cancelled entry, the queue
+loses exactly that prefix, and the value is *not* incremented. -/
+theorem C10_sem_fifo_handover {s s' : Semaphore.State} {e : Semaphore.Ev} {o : Semaphore.Out}
+    {u : Nat} (hs : Semaphore.step s e = some (s', o))
+    (hnew : s'.pc u = .granted) (hold : s.pc u ≠ .granted) :
+    ∃ pre rest, s.waiters = pre ++ (u, false) :: rest ∧ (∀ w ∈ pre, w.2 = true) ∧
+      s'.waiters = rest ∧ s'.value = s.value := by
+  open Semaphore in
+  have hrel : ∀ s1 s2 : State, doRelease s1 = some s2 → s1.waiters = s.waiters →
+      s1.value = s.value → s1.pc u ≠ .granted → s2.pc u = .granted →
+      ∃ pre rest, s.waiters = pre ++ (u, false) :: rest ∧ (∀ w ∈ pre, w.2 = true) ∧
+        s2.waiters = rest ∧ s2.value = s.value := by
+    intro s1 s2 hr hw hv hp1 hp2
+    obtain ⟨_, hsh, _⟩ := doRelease_shape hr
+    rcases hsh with ⟨_, _, hpc, _⟩ | ⟨v, pre, hws, hpre, hval, hpc, _⟩
+    · rw [hpc] at hp2; exact absurd hp2 hp1
+    · have : u = v := by
+        by_cases huv : u = v
+        · exact huv
+        · rw [hpc] at hp2; simp [huv] at hp2; exact absurd hp2 hp1
+      subst this
+      exact ⟨pre, s2.waiters, by rw [← hw, hws], hpre, rfl, by rw [hval, hv]⟩
+  open Semaphore in
+  have hgb : ∀ t s2 o2, giveBack s t = (s2, o2) → s2.pc u = .granted →
+      ∃ pre rest, s.waiters = pre ++ (u, false) :: rest ∧ (∀ w ∈ pre, w.2 = true) ∧
+        s2.waiters = rest ∧ s2.value = s.value := by
+    intro t s2 o2 hg hp2
+    unfold giveBack at hg
+    simp only at hg
+    have hp1 : upd s.pc t .idle u ≠ .granted := by
+      by_cases hut : u = t <;> simp [hut, hold]
+    split at hg
+    · rename_i s3 hr; cases hg; exact hrel _ _ hr rfl rfl hp1 hp2
+    · cases hg; exact absurd hp2 hp1
+  open Semaphore in
+  cases e with
+  | acquire t pre =>
+    simp only [step] at hs
+    split at hs; · contradiction
+    split at hs
+    · split at hs
+      · cases hs; simp only [upd_apply] at hnew; grind
+      · split at hs
+        · cases hs; exact absurd hnew hold
+        · cases hs; simp only [upd_apply] at hnew; grind
+    · cases hs; simp only [upd_apply] at hnew; grind
+  | acquireNowait t =>
+    simp only [step] at hs
+    split at hs; · contradiction
+    split at hs <;> (cases hs; exact absurd hnew hold)
+  | release t =>
+    simp only [step] at hs
+    split at hs; · contradiction
+    split at hs
+    · cases hs; exact absurd hnew hold
+    · rename_i s1 hr
+      split at hs <;> (cases hs; exact hrel s s1 hr rfl rfl hold hnew)
+  | fc t =>
+    simp only [step] at hs
+    split at hs
+    · cases hs; simp only [upd_apply] at hnew; grind
+    · contradiction
+  | mc t =>
+    simp only [step] at hs
+    split at hs <;> first | contradiction | (cases hs; simp only [upd_apply] at hnew; grind)
+  | step t =>
+    simp only [step] at hs
+    split at hs
+    · contradiction
+    · contradiction
+    · cases hs; exact absurd hnew hold
+    · cases hs; simp only [upd_apply] at hnew; grind
+    · cases hs; simp only [upd_apply] at hnew; grind
+    · injection hs with hs; exact hgb _ _ _ hs hnew
+    · cases hs; simp only [upd_apply] at hnew; grind
+    · cases hs; simp only [upd_apply] at hnew; grind
+    · injection hs with hs; exact hgb _ _ _ hs hnew
+
+/-- The queue keeps arrival order: a step only appends the caller at the tail or deletes
+entries; it never reorders or inserts elsewhere. -/
+theorem C10_sem_queue_order {s s' : Semaphore.State} {e : Semaphore.Ev} {o : Semaphore.Out}
+    (hs : Semaphore.step s e = some (s', o)) :
+    (s'.waiters.map Prod.fst).Sublist (s.waiters.map Prod.fst) ∨
+    (∃ t pre, e = .acquire t pre ∧ s'.waiters = s.waiters ++ [(t, false)]) := by
+  open Semaphore in
+  have hrel : ∀ s1 s2 : State, doRelease s1 = some s2 → s1.waiters = s.waiters →
+      (s2.waiters.map Prod.fst).Sublist (s.waiters.map Prod.fst) := by
+    intro s1 s2 hr hw
+    obtain ⟨_, hsh, _⟩ := doRelease_shape hr
+    rcases hsh with ⟨_, hnil, _⟩ | ⟨v, pre, hws, _⟩
+    · simp [hnil]
+    · rw [← hw, hws]
+      simp only [List.map_append, List.map_cons]
+      exact List.Sublist.trans (List.sublist_cons_self _ _) (List.sublist_append_right _ _)
+  open Semaphore in
+  have hgb : ∀ t s2 o2, giveBack s t = (s2, o2) →
+      (s2.waiters.map Prod.fst).Sublist (s.waiters.map Prod.fst) := by
+    intro t s2 o2 hg
+    unfold giveBack at hg
+    simp only at hg
+    split at hg
+    · rename_i s3 hr; cases hg; exact hrel _ _ hr rfl
+    · cases hg; exact List.Sublist.refl _
+  open Semaphore in
+  cases e with
+  | acquire t pre =>
+    simp only [step] at hs
+    split at hs; · contradiction
+    split at hs
+    · split at hs
+      · cases hs; left; exact List.Sublist.refl _
+      · split at hs <;> (cases hs; left; exact List.Sublist.refl _)
+    · cases hs; right; exact ⟨t, pre, rfl, rfl⟩
+  | acquireNowait t =>
+    simp only [step] at hs
+    split at hs; · contradiction
+    split at hs <;> (cases hs; left; exact List.Sublist.refl _)
+  | release t =>
+    simp only [step] at hs
+    split at hs; · contradiction
+    split at hs
+    · cases hs; left; exact List.Sublist.refl _
+    · rename_i s1 hr
+      split at hs <;> (cases hs; left; exact hrel s s1 hr rfl)
+  | fc t =>
+    simp only [step] at hs
+    split at hs
+    · cases hs; left; simp [map_fst_markCancelled]
+    · contradiction
+  | mc t =>
+    simp only [step] at hs
+    split at hs <;> first | contradiction | (cases hs; left; exact List.Sublist.refl _)
+  | step t =>
+    simp only [step] at hs
+    split at hs
+    · contradiction
+    · contradiction
+    · cases hs; left; exact List.Sublist.refl _
+    · cases hs; left; exact List.Sublist.refl _
+    · cases hs; left; exact List.Sublist.refl _
+    · injection hs with hs; left; exact hgb _ _ _ hs
+    · cases hs; left; exact List.Sublist.map _ List.filter_sublist
+    · cases hs; left; exact List.Sublist.refl _
+    · injection hs with hs; left; exact hgb _ _ _ hs
+
+/-- Cancel-safety.  When a task's `acquire` ends with the cancellation exception the task is
+out of the queue and out of the in-flight set, nobody's holdings and none of the ghost counters
+change, and the number of permits that are free or in flight is what it was: a waiter cancelled
+while still queued (or spinning in `checkpoint_if_cancelled`) changes neither `value` nor the
+in-flight set; one that had already been handed a permit (`grantedMC`, `fastYieldMC`) passes it
+to the first live waiter or puts it back into `value`. -/
+theorem C10_sem_cancel_safe {s s' : Semaphore.State} (h : Semaphore.Reach s) {t : Nat}
+    (hs : Semaphore.step s (.step t) = some (s', .cancelled)) :
+    s'.pc t = .idle ∧ t ∉ s'.infl ∧ (∀ c, (t, c) ∉ s'.waiters) ∧
+    s'.holders = s.holders ∧ s'.extra = s.extra ∧ s'.lost = s.lost ∧
+    s'.value + s'.infl.length = s.value + s.infl.length ∧
+    (s.pc t = .waitFC ∨ s.pc t = .preSpinMC → s'.value = s.value ∧ s'.infl = s.infl) ∧
+    (s.pc t = .grantedMC ∨ s.pc t = .fastYieldMC →
+      (s'.value = s.value + 1 ∧ s'.waiters = []) ∨
+      (∃ u, s.pc u = .waiting ∧ s'.pc u = .granted ∧ s'.value = s.value)) := by
+  open Semaphore in
+  have hi := C10_sem_invariant h
+  open Semaphore in
+  have hi' := C10_sem_invariant (Reachable.next h hs)
+  open Semaphore in
+  have hgb : ∀ s2, owning (s.pc t) → giveBack s t = (s2, Out.cancelled) →
+      s2.pc t = .idle ∧ s2.holders = s.holders ∧ s2.extra = s.extra ∧ s2.lost = s.lost ∧
+      s2.init0 = s.init0 ∧
+      ((s2.value = s.value + 1 ∧ s2.waiters = []) ∨
+       (∃ u, s.pc u = .waiting ∧ s2.pc u = .granted ∧ s2.value = s.value)) := by
+    intro s2 ho hg
+    obtain ⟨hs1, _⟩ := struct_leave hi.toStruct ho
+    unfold giveBack at hg
+    simp only at hg
+    split at hg
+    · rename_i s3 hr
+      injection hg with hg1 hg2
+      subst hg1
+      obtain ⟨_, hsh, e1, e2, e3, e4, _⟩ := doRelease_shape hr
+      refine ⟨?_, e1, e2, e3, e4, ?_⟩
+      · rcases hsh with ⟨_, _, hpc, _⟩ | ⟨v, pre, hws, hpre, hval, hpc, _⟩
+        · rw [hpc]; simp
+        · have hv := hs1.waiter_pc v false (by rw [hws]; simp)
+          have hvt : t ≠ v := by
+            rintro rfl; simp at hv
+          rw [hpc]; simp [hvt]
+      · rcases hsh with ⟨hv, hnil, _⟩ | ⟨v, pre, hws, hpre, hval, hpc, _⟩
+        · left; exact ⟨hv, hnil⟩
+        · right
+          have hv := hs1.waiter_pc v false (by rw [hws]; simp)
+          have hvt : v ≠ t := by
+            rintro rfl; simp at hv
+          refine ⟨v, ?_, by rw [hpc]; simp, hval⟩
+          simpa [hvt] using hv
+    · injection hg with hg1 hg2; cases hg2
+  open Semaphore in
+  have key : s'.pc t = .idle ∧ s'.holders = s.holders ∧ s'.extra = s.extra ∧ s'.lost = s.lost ∧
+      s'.init0 = s.init0 ∧
+      (s.pc t = .waitFC ∨ s.pc t = .preSpinMC → s'.value = s.value ∧ s'.infl = s.infl) ∧
+      (s.pc t = .grantedMC ∨ s.pc t = .fastYieldMC →
+        (s'.value = s.value + 1 ∧ s'.waiters = []) ∨
+        (∃ u, s.pc u = .waiting ∧ s'.pc u = .granted ∧ s'.value = s.value)) := by
+    simp only [step] at hs
+    split at hs
+    · contradiction
+    · contradiction
+    · cases hs
+    · rename_i hpc; cases hs; simp [hpc]
+    · cases hs
+    · rename_i hpc; injection hs with hs
+      have := hgb _ (by simp [owning, hpc]) hs
+      simp [hpc]; exact this
+    · rename_i hpc; cases hs; simp [hpc]
+    · cases hs
+    · rename_i hpc; injection hs with hs
+      have := hgb _ (by simp [owning, hpc]) hs
+      simp [hpc]; exact this
+  obtain ⟨k1, k2, k3, k4, k5, k6, k7⟩ := key
+  refine ⟨k1, ?_, ?_, k2, k3, k4, ?_, k6, k7⟩
+  · intro hm; have := (hi'.infl_iff t).mp hm; simp [Semaphore.owning, k1] at this
+  · intro c hm; have := hi'.waiter_pc t c hm; simp [k1] at this
+  · have c1 := hi.conserve; have c2 := hi'.conserve
+    rw [k2, k3, k4, k5] at c2; omega
+
+/-- Releasing beyond `max_value` is rejected with the state unchanged -- and only then. -/
+theorem C10_sem_over_release {s s' : Semaphore.State} {o : Semaphore.Out} {t : Nat}
+    (hs : Semaphore.step s (.release t) = some (s', o)) :
+    (s.max = some s.value → o = .valueError ∧ s' = s) ∧
+    (s.max ≠ some s.value → o = .ret) := by
+  open Semaphore in
+  simp only [step] at hs
+  split at hs; · contradiction
+  split at hs
+  · rename_i hr
+    cases hs
+    exact ⟨fun _ => ⟨rfl, rfl⟩, fun hne => absurd (doRelease_none.mp hr) hne⟩
+  · rename_i s1 hr
+    have := (doRelease_shape hr).1
+    split at hs <;> (cases hs; exact ⟨fun he => absurd he this, fun _ => rfl⟩)
+
+/-- `acquire_nowait` never blocks and never queues: it takes a permit iff the value is positive. -/
+theorem C10_sem_nowait {s s' : Semaphore.State} {o : Semaphore.Out} {t : Nat}
+    (hs : Semaphore.step s (.acquireNowait t) = some (s', o)) :
+    (s.value = 0 → o = .wouldBlock ∧ s' = s) ∧
+    (0 < s.value → o = .ret ∧ s'.value + 1 = s.value ∧ s'.holders = t :: s.holders) := by
+  simp only [Semaphore.step] at hs
+  split at hs; · contradiction
+  split at hs
+  · rename_i hv; cases hs; exact ⟨fun _ => ⟨rfl, rfl⟩, fun hp => by omega⟩
+  · rename_i hv; cases hs
+    exact ⟨fun h0 => absurd h0 hv, fun _ => ⟨rfl, by simp; omega, rfl⟩⟩
+
+/-- Quiescence: once no task is inside an operation and every holder has released, nothing is
+queued or in flight and the value accounts for every permit; without extra releases it is the
+initial value again. -/
+theorem C10_sem_quiescent {s : Semaphore.State} (h : Semaphore.Reach s)
+    (hq : ∀ t, s.pc t = .idle) (hh : s.holders = []) :
+    s.waiters = [] ∧ s.infl = [] ∧ s.value + s.lost = s.init0 + s.extra ∧
+    (s.extra = 0 → s.value = s.init0) := by
+  have hi := C10_sem_invariant h
+  have hw : s.waiters = [] := by
+    apply List.eq_nil_iff_forall_not_mem.mpr
+    rintro ⟨t, c⟩ hm
+    have := hi.waiter_pc t c hm
+    simp [hq t] at this
+  have hin : s.infl = [] := by
+    apply List.eq_nil_iff_forall_not_mem.mpr
+    intro t hm
+    have := (hi.infl_iff t).mp hm
+    simp [Semaphore.owning, hq t] at this
+  have hc := hi.conserve
+  have hl := hi.lost_le
+  rw [hh, hin] at hc
+  simp at hc
+  exact ⟨hw, hin, hc, fun he => by omega⟩
+
+/-! ## CapacityLimiter
+
+All statements are about `Limiter.Reach`: states reachable by *any* finite list of events each
+of which respects the discipline `okEv` (`OneWaitPerBorrower` and `ReleaseAfterReturn`, see
+`AnyioModel.Sync.Limiter`); `C10_disciplined_history` ties this to the decidable predicates on
+histories. -/
+
+theorem C10_invariant {s : Limiter.State} (h : Limiter.Reach s) : Limiter.Inv s := by
+  refine Reachable.invariant Limiter.Inv ?_ ?_ s h
+  · intro s h0; exact Limiter.inv_init h0
+  · intro s e s' o hi hs; exact Limiter.inv_step hi hs
+
+/-- A history (any event list, run with the unrestricted `step`) that satisfies the two
+decidable predicates leads to a state covered by the theorems below. -/
+theorem C10_disciplined_history {s0 s : Limiter.State} {es : List Limiter.Ev}
+    (h0 : Limiter.Reach s0) (hr : runFrom Limiter.step s0 es = some s)
+    (h1 : Limiter.OneWaitPerBorrower s0 es = true)
+    (h2 : Limiter.ReleaseAfterReturn s0 es = true) : Limiter.Reach s := by
+  induction es generalizing s0 with
+  | nil => simp [runFrom] at hr; exact hr ▸ h0
+  | cons e es ih =>
+    simp only [runFrom] at hr
+    split at hr
+    · contradiction
+    · rename_i s1 o hs
+      simp only [Limiter.OneWaitPerBorrower, Limiter.ReleaseAfterReturn, hs, Bool.and_eq_true] at h1 h2
+      have hd : Limiter.dstep s0 e = some (s1, o) := by
+        simp [Limiter.dstep, Limiter.okEv, h1.1, h2.1, hs]
+      exact ih (Reachable.next h0 hd) hr h1.2 h2.2
+
+/-- Every single wake-up -- in `release`, in the `total_tokens` setter's loop, in a cancelled
+waiter's give-back -- starts from a state with a free token and adds exactly one borrower. -/
+theorem C10_wake_only_when_free {s s' : Limiter.State} (h : Limiter.Inv s)
+    (hw : Limiter.wake1 s = some s') :
+    Limiter.ltTot s.borrowers.length s.total = true ∧
+    s'.borrowers.length = s.borrowers.length + 1 ∧ s'.total = s.total := by
+  obtain ⟨_, hlen, htot, _, hlt, _⟩ := Limiter.invW_wake1 h.toInvW hw
+  exact ⟨hlt, hlen, htot⟩
+
+/-- Grant safety: a transition that adds a borrower -- direct caller, woken waiter(s), or the
+`total_tokens` setter -- ends with `|borrowers| ≤ total`: every token it handed out was free. -/
+theorem C10_grant_safe {s s' : Limiter.State} {e : Limiter.Ev} {o : Limiter.Out}
+    (h : Limiter.Reach s) (hs : Limiter.dstep s e = some (s', o))
+    (hnew : ∃ c, c ∈ s'.borrowers ∧ c ∉ s.borrowers) :
+    Limiter.leTot s'.borrowers.length s'.total = true := by
+  obtain ⟨c, hc1, hc2⟩ := hnew
+  rcases Limiter.dstep_cases (C10_invariant h) hs with hq | hg | ⟨s1, pre, hw, _, _, hsub, _, _⟩
+  · rw [hq.2.1] at hc1; exact absurd hc1 hc2
+  · obtain ⟨_, _, hlt, htot, _, b, _, hb, _⟩ := hg
+    rw [hb, htot]; exact Limiter.ltTot_succ_le hlt
+  · have hpre : pre ≠ [] := by
+      rintro rfl
+      have := hw.same rfl; subst this
+      exact hc2 (hsub c hc1)
+    rw [hw.total]; exact hw.safe hpre
+
+/-- Bound, part 1: on every history that never assigned a total below the number borrowed,
+`|borrowers| ≤ total`. -/
+theorem C10_bound {s : Limiter.State} (h : Limiter.Reach s) (hl : s.lowered = false) :
+    Limiter.leTot s.borrowers.length s.total = true :=
+  (C10_invariant h).bound hl
+
+/-- Bound, part 2: the ghost flag `lowered` is raised only by such an assignment. -/
+theorem C10_bound_flag {s s' : Limiter.State} {e : Limiter.Ev} {o : Limiter.Out}
+    (h : Limiter.Reach s) (hs : Limiter.dstep s e = some (s', o)) (hl : s'.lowered = true) :
+    s.lowered = true ∨ ∃ v, e = .setTotal v ∧ Limiter.leTot s.borrowers.length v = false := by
+  rcases Limiter.dstep_cases (C10_invariant h) hs with hq | hg | ⟨s1, pre, hw, _, _, _, _, hk⟩
+  · left; rw [← hq.2.2.2.1]; exact hl
+  · left; rw [← hg.2.2.2.2.1]; exact hl
+  · rw [hw.lowered] at hl
+    rcases hk with ⟨_, hlow, _⟩ | ⟨v, he, _, _, hlow⟩
+    · left; rw [← hlow]; exact hl
+    · rw [hlow] at hl
+      simp only [Bool.or_eq_true, Bool.not_eq_true'] at hl
+      rcases hl with hl | hl
+      · exact Or.inl hl
+      · exact Or.inr ⟨v, he, hl⟩
+
+/-- Bound, part 3: in any case -- also after the total was lowered below the number borrowed --
+the number borrowed never *increases* to a value above `total`. -/
+theorem C10_bound_step {s s' : Limiter.State} {e : Limiter.Ev} {o : Limiter.Out}
+    (h : Limiter.Reach s) (hs : Limiter.dstep s e = some (s', o)) :
+    s'.borrowers.length ≤ s.borrowers.length ∨
+    Limiter.leTot s'.borrowers.length s'.total = true := by
+  rcases Limiter.dstep_cases (C10_invariant h) hs with hq | hg | ⟨s1, pre, hw, _, _, _, hlen, _⟩
+  · left; rw [hq.2.1]; exact Nat.le_refl _
+  · obtain ⟨_, _, hlt, htot, _, b, _, hb, _⟩ := hg
+    right; rw [hb, htot]; exact Limiter.ltTot_succ_le hlt
+  · by_cases hpre : pre = []
+    · have := hw.same hpre; subst this; left; exact hlen
+    · right; rw [hw.total]; exact hw.safe hpre
+
+/-- No idle token: while anybody is queued, every token is borrowed (possibly reserved for a
+waiter that has been notified and has not run yet). -/
+theorem C10_no_idle_token {s : Limiter.State} (h : Limiter.Reach s) (hq : s.queue ≠ []) :
+    Limiter.ltTot s.borrowers.length s.total = false :=
+  (C10_invariant h).no_idle hq
+
+/-- The reported numbers are the true ones: `borrowed_tokens` (`|borrowers|`; `available_tokens`
+is `total - |borrowers|` by definition) equals the number of borrowers that hold a token plus
+the number of tokens reserved for acquire calls in flight; the set of borrowers is exactly
+holders ∪ reserved; `holders` counts grants minus releases. -/
+theorem C10_stats {s : Limiter.State} (h : Limiter.Reach s) :
+    s.borrowers.length = s.holders.length + s.resv.length ∧
+    (∀ b, b ∈ s.borrowers ↔ (b ∈ s.holders ∨ ∃ u, (b, u) ∈ s.resv)) ∧
+    s.holders.length + s.rels = s.grants := by
+  have hi := C10_invariant h
+  refine ⟨?_, hi.mem_B, hi.counts⟩
+  have hnd : (s.holders ++ s.resv.map Prod.fst).Nodup := by
+    refine List.nodup_append.mpr ⟨hi.nodupH, hi.nodupR, ?_⟩
+    intro a ha b hb hab
+    subst hab
+    obtain ⟨u, hu⟩ := Limiter.mem_keys.mp hb
+    exact hi.disjHR a u ha hu
+  have hperm : s.borrowers.Perm (s.holders ++ s.resv.map Prod.fst) := by
+    apply (List.perm_ext_iff_of_nodup hi.nodupB hnd).mpr
+    intro a
+    rw [hi.mem_B a, List.mem_append, Limiter.mem_keys]
+  have := hperm.length_eq
+  simpa using this
+
+/-- A borrower never holds two tokens: a second acquire for a current borrower is refused with
+the state unchanged, and the borrower and holder collections are duplicate-free. -/
+theorem C10_one_token {s : Limiter.State} (h : Limiter.Reach s) :
+    s.borrowers.Nodup ∧ s.holders.Nodup ∧
+    (∀ t b s' o, b ∈ s.borrowers →
+      (Limiter.step s (.acquireOnBehalf t b false) = some (s', o) ∨
+       Limiter.step s (.acquireOnBehalfNowait t b) = some (s', o)) →
+      o = .runtimeError ∧ s' = s) ∧
+    (∀ t s' o, t ∈ s.borrowers →
+      (Limiter.step s (.acquire t false) = some (s', o) ∨
+       Limiter.step s (.acquireNowait t) = some (s', o)) →
+      o = .runtimeError ∧ s' = s) := by
+  have hi := C10_invariant h
+  refine ⟨hi.nodupB, hi.nodupH, ?_, ?_⟩
+  · intro t b s' o hb hs
+    rcases hs with hs | hs <;>
+      simp only [Limiter.step, Limiter.acq, Limiter.acqNowait] at hs <;> grind
+  · intro t s' o hb hs
+    rcases hs with hs | hs <;>
+      simp only [Limiter.step, Limiter.acq, Limiter.acqNowait] at hs <;> grind
+
+/-- Releasing for a non-borrower is refused with the state unchanged. -/
+theorem C10_release_non_borrower {s s' : Limiter.State} {o : Limiter.Out} {t b : Nat}
+    (hb : b ∉ s.borrowers) :
+    (Limiter.step s (.releaseOnBehalf t b) = some (s', o) → o = .runtimeError ∧ s' = s) ∧
+    (b = t → Limiter.step s (.release t) = some (s', o) → o = .runtimeError ∧ s' = s) := by
+  constructor
+  · intro hs; simp only [Limiter.step, Limiter.rel] at hs; grind
+  · rintro rfl hs; simp only [Limiter.step, Limiter.rel] at hs; grind
+
+/-- ... and a holder's release is always accepted and removes exactly that borrower. -/
+theorem C10_release_holder {s : Limiter.State} (h : Limiter.Reach s) {t b : Nat}
+    (hpc : s.pc t = .idle) (hb : b ∈ s.holders) :
+    ∃ s', Limiter.dstep s (.releaseOnBehalf t b) = some (s', .ret) ∧ b ∉ s'.holders := by
+  have hi := C10_invariant h
+  have hbB : b ∈ s.borrowers := (hi.mem_B b).mpr (Or.inl hb)
+  have hnr : ∀ u, (b, u) ∉ s.resv := fun u hu => hi.disjHR b u hb hu
+  have hok : Limiter.okEv s (.releaseOnBehalf t b) = true := by
+    simp only [Limiter.okEv, Limiter.oneWaitOk, Limiter.releaseOk, Bool.true_and,
+      Bool.not_eq_true', List.contains_eq_mem, decide_eq_false_iff_not]
+    intro hm
+    obtain ⟨u, hu⟩ := Limiter.mem_keys.mp hm
+    exact hnr u hu
+  refine ⟨Limiter.notify { s with borrowers := s.borrowers.erase b, holders := s.holders.erase b,
+                                   rels := s.rels + 1 }, ?_, ?_⟩
+  · simp [Limiter.dstep, hok, Limiter.step, Limiter.rel, hpc, hbB]
+  · obtain ⟨pre, hw, _⟩ := Limiter.notify_woke
+      { s with borrowers := s.borrowers.erase b, holders := s.holders.erase b, rels := s.rels + 1 }
+    rw [hw.holders]
+    exact fun hm => ((List.Nodup.mem_erase_iff hi.nodupH).mp hm).1 rfl
+
+/-- Cancel-safety.  When a task's acquire call ends with the cancellation exception, the task
+is idle, has no queue entry and no reservation; nobody's holdings and no counter change; the
+number borrowed does not grow.  If a token had already been reserved for the call (uncontended
+path, or notified waiter -- also one notified *after* its future was cancelled) the borrower
+is no longer registered; otherwise the borrower set is untouched.  `C10_invariant` for the
+successor state then says the token has been handed on: `C10_no_idle_token` holds again. -/
+theorem C10_cancel_safe {s s' : Limiter.State} (h : Limiter.Reach s) {t : Nat}
+    (hs : Limiter.dstep s (.step t) = some (s', .cancelled)) :
+    s'.pc t = .idle ∧ (∀ b, (b, t) ∉ s'.queue) ∧ (∀ b, (b, t) ∉ s'.resv) ∧
+    s'.holders = s.holders ∧ s'.grants = s.grants ∧ s'.rels = s.rels ∧
+    s'.borrowers.length ≤ s.borrowers.length ∧
+    (Limiter.reserving (s.pc t) → s.beh t ∉ s'.borrowers) ∧
+    (¬ Limiter.reserving (s.pc t) → s'.borrowers = s.borrowers) := by
+  open Limiter in
+  have hi := C10_invariant h
+  open Limiter in
+  have hi' := C10_invariant (Reachable.next h hs)
+  open Limiter in
+  have hgb : reserving (s.pc t) →
+      let s2 := notify { s with pc := upd s.pc t .idle, resv := unresv t s.resv,
+                                borrowers := s.borrowers.erase (s.beh t) }
+      s2.pc t = .idle ∧ s2.holders = s.holders ∧ s2.grants = s.grants ∧ s2.rels = s.rels ∧
+      s2.borrowers.length ≤ s.borrowers.length ∧ s.beh t ∉ s2.borrowers := by
+    intro hr
+    obtain ⟨hm, hbB, hbH, hbU, hbQ, hnq⟩ := resv_facts hi.toInvW hr
+    obtain ⟨hw1, hlen⟩ := invW_unreserve hi.toInvW hr
+    obtain ⟨pre, hw, hl⟩ := notify_woke
+      { s with pc := upd s.pc t .idle, resv := unresv t s.resv,
+               borrowers := s.borrowers.erase (s.beh t) }
+    have hpre : ∀ x, x ∈ pre → x ∈ s.queue := by
+      intro x hx
+      have := hw.queue
+      simp only at this
+      rw [this]; simp [hx]
+    refine ⟨?_, hw.holders, hw.grants, hw.rels, ?_, ?_⟩
+    · rw [hw.pc t]
+      · simp
+      · intro b hb
+        exact hnq (hi.q_pc b t (hpre _ hb)).2
+    · have := hw.len; simp only at this hlen; omega
+    · intro hmem
+      rcases hw.new _ hmem with hc | ⟨u, hu⟩
+      · exact ((List.Nodup.mem_erase_iff hi.nodupB).mp hc).1 rfl
+      · exact hbQ u (hpre _ hu)
+  open Limiter in
+  have key : s'.pc t = .idle ∧ s'.holders = s.holders ∧ s'.grants = s.grants ∧ s'.rels = s.rels ∧
+      s'.borrowers.length ≤ s.borrowers.length ∧
+      (reserving (s.pc t) → s.beh t ∉ s'.borrowers) ∧
+      (¬ reserving (s.pc t) → s'.borrowers = s.borrowers) := by
+    simp only [dstep, okEv, oneWaitOk, releaseOk, Bool.and_self, if_true, step] at hs
+    split at hs
+    · contradiction
+    · contradiction
+    · cases hs
+    · rename_i hpc; cases hs; simp [hpc, reserving]
+    · cases hs
+    · rename_i hpc
+      have hr : reserving (s.pc t) := by simp [hpc, reserving]
+      obtain ⟨_, hbB, _⟩ := resv_facts hi.toInvW hr
+      simp only [hbB, if_true] at hs
+      cases hs
+      obtain ⟨a1, a2, a3, a4, a5, a6⟩ := hgb hr
+      exact ⟨a1, a2, a3, a4, a5, fun _ => a6, fun hn => absurd hr hn⟩
+    · rename_i hpc; cases hs; simp [hpc, reserving]
+    · cases hs
+    · rename_i hpc
+      have hr : reserving (s.pc t) := by simp [hpc, reserving]
+      cases hs
+      rw [giveBack_eq hi hr]
+      obtain ⟨a1, a2, a3, a4, a5, a6⟩ := hgb hr
+      exact ⟨a1, a2, a3, a4, a5, fun _ => a6, fun hn => absurd hr hn⟩
+    · rename_i hpc
+      have hr : reserving (s.pc t) := by simp [hpc, reserving]
+      cases hs
+      rw [giveBack_eq hi hr]
+      obtain ⟨a1, a2, a3, a4, a5, a6⟩ := hgb hr
+      exact ⟨a1, a2, a3, a4, a5, fun _ => a6, fun hn => absurd hr hn⟩
+  obtain ⟨k1, k2, k3, k4, k5, k6, k7⟩ := key
+  refine ⟨k1, ?_, ?_, k2, k3, k4, k5, k6, k7⟩
+  · intro b hm; have := (hi'.q_pc b t hm).2; simp [Limiter.queued, k1] at this
+  · intro b hm; have := (hi'.r_pc b t hm).2; simp [Limiter.reserving, k1] at this
+
+/-- Quiescence: once no task is inside an operation and every holder has released, the limiter
+is back in its initial state: no borrowers, empty queue, nothing reserved, all tokens free. -/
+theorem C10_quiescent {s : Limiter.State} (h : Limiter.Reach s)
+    (hq : ∀ t, s.pc t = .idle) (hh : s.holders = []) :
+    s.borrowers = [] ∧ s.queue = [] ∧ s.resv = [] := by
+  have hi := C10_invariant h
+  have hr : s.resv = [] := by
+    apply List.eq_nil_iff_forall_not_mem.mpr
+    rintro ⟨b, u⟩ hm
+    have := (hi.r_pc b u hm).2
+    simp [Limiter.reserving, hq u] at this
+  have hqq : s.queue = [] := by
+    apply List.eq_nil_iff_forall_not_mem.mpr
+    rintro ⟨b, u⟩ hm
+    have := (hi.q_pc b u hm).2
+    simp [Limiter.queued, hq u] at this
+  refine ⟨?_, hqq, hr⟩
+  apply List.eq_nil_iff_forall_not_mem.mpr
+  intro b hb
+  rcases (hi.mem_B b).mp hb with hm | ⟨u, hu⟩
+  · simp [hh] at hm
+  · simp [hr] at hu
+
+/-- First come, first served.  A token is newly reserved for `(b, u)` either because `u` itself
+took a free token while *nobody was queued*, or because `(b, u)` was in the queue and the step
+notified it together with *every entry ahead of it*. -/
+theorem C10_fifo {s s' : Limiter.State} {e : Limiter.Ev} {o : Limiter.Out}
+    (h : Limiter.Reach s) (hs : Limiter.dstep s e = some (s', o)) {b u : Nat}
+    (hnew : (b, u) ∈ s'.resv) (hold : (b, u) ∉ s.resv) :
+    (s.queue = [] ∧ s.pc u = .idle) ∨
+    (∃ pre rest, s.queue = pre ++ (b, u) :: rest ∧ ∀ x ∈ pre, x ∈ s'.resv) := by
+  rcases Limiter.dstep_cases (C10_invariant h) hs with hq | hg | ⟨s1, pre, hw, hq1, hr1, _, _, _⟩
+  · exact absurd (hq.2.2.1 _ hnew) hold
+  · obtain ⟨hq0, _, _, _, _, b', _, _, hr⟩ := hg
+    rcases hr with hr | ⟨t, hr, hpc⟩
+    · rw [hr] at hnew; exact absurd hnew hold
+    · rw [hr] at hnew
+      rcases List.mem_cons.mp hnew with he | hm
+      · cases he; exact Or.inl ⟨hq0, hpc⟩
+      · exact absurd hm hold
+  · right
+    rw [hw.resv] at hnew
+    rcases List.mem_append.mp hnew with hm | hm
+    · have hm' : (b, u) ∈ pre := List.mem_reverse.mp hm
+      obtain ⟨p1, p2, hp⟩ := List.append_of_mem hm'
+      refine ⟨p1, p2 ++ s'.queue, ?_, ?_⟩
+      · rw [← hq1, hw.queue, hp]; simp
+      · intro x hx
+        rw [hw.resv]
+        apply List.mem_append_left
+        apply List.mem_reverse.mpr
+        rw [hp]; simp [hx]
+    · exact absurd (hr1 _ hm) hold
+
+/-- No barging: while somebody is queued, a new borrower can only be a queued one. -/
+theorem C10_no_barging {s s' : Limiter.State} {e : Limiter.Ev} {o : Limiter.Out}
+    (h : Limiter.Reach s) (hs : Limiter.dstep s e = some (s', o)) {c : Nat}
+    (hc1 : c ∈ s'.borrowers) (hc2 : c ∉ s.borrowers) (hq : s.queue ≠ []) :
+    ∃ u, (c, u) ∈ s.queue := by
+  rcases Limiter.dstep_cases (C10_invariant h) hs with hq' | hg | ⟨s1, pre, hw, hq1, _, hsub, _, _⟩
+  · rw [hq'.2.1] at hc1; exact absurd hc1 hc2
+  · exact absurd hg.1 hq
+  · rcases hw.new c hc1 with hm | ⟨u, hu⟩
+    · exact absurd (hsub c hm) hc2
+    · exact ⟨u, by rw [← hq1, hw.queue]; simp [hu]⟩
+
+/-- The queue keeps arrival order: a step only appends the caller at the tail or deletes
+entries (a notified prefix, or a cancelled waiter's own entry). -/
+theorem C10_queue_order {s s' : Limiter.State} {e : Limiter.Ev} {o : Limiter.Out}
+    (h : Limiter.Reach s) (hs : Limiter.dstep s e = some (s', o)) :
+    s'.queue.Sublist s.queue ∨ ∃ b t, s'.queue = s.queue ++ [(b, t)] ∧ s.pc t = .idle := by
+  rcases Limiter.dstep_cases (C10_invariant h) hs with hq | hg | ⟨s1, pre, hw, hq1, _, _, _, _⟩
+  · rcases hq.2.2.2.2 with he | ⟨b, t, he, hpc⟩ | ⟨t, he, _⟩
+    · left; rw [he]; exact List.Sublist.refl _
+    · right; exact ⟨b, t, he, hpc⟩
+    · left; rw [he]; exact List.filter_sublist
+  · left; rw [hg.2.1, hg.1]; exact List.Sublist.refl _
+  · left; rw [← hq1, hw.queue]; exact List.sublist_append_right _ _
+
+/-! ## non-vacuity: the hypotheses above are met by concrete contended histories -/
+
+section examples
+open Semaphore in
+/-- Semaphore(1): 1 takes the permit, 2 and 3 queue, 2 is cancelled while queued, 1 releases:
+the permit skips 2's cancelled future and goes to 3 without passing through `value` -/
+example :
+    (runFrom step (init false 1 none)
+      [.acquire 1 false, .step 1, .acquire 2 false, .acquire 3 false, .fc 2, .release 1]).map
+      (fun s => (s.value, s.waiters, s.pc 3, s.infl)) =
+    some (0, [], Pc.granted, [3]) := by decide
+
+open Semaphore in
+/-- hand-over cycle: 1 releases to 2, a native cancel hits 2 before it runs, 2 passes it to 3 -/
+example :
+    (runFrom step (init false 1 none)
+      [.acquire 1 false, .step 1, .acquire 2 false, .acquire 3 false, .release 1, .mc 2,
+       .step 2]).map
+      (fun s => (s.value, s.waiters, s.pc 2, s.pc 3, s.infl)) =
+    some (0, [], Pc.idle, Pc.granted, [3]) := by decide
+
+open Semaphore in
+/-- Semaphore(0, max_value=1) used as a signal: an extra release is a new permit; the third
+release is refused -/
+example :
+    (traceFrom step (init false 0 (some 1)) [.acquire 1 false, .release 2, .release 2, .release 2]).map
+      (fun r => (r.1.value, r.1.pc 1, r.1.extra, r.2)) =
+    some (1, Pc.granted, 2, [Out.susp, Out.ret, Out.ret, Out.valueError]) := by decide
+
+open Semaphore in
+/-- ... and if the signalled waiter is then cancelled natively before it runs, the permit it
+gives back is an over-release: `acquire` raises `ValueError`, the permit is dropped (`lost`) -/
+example :
+    (traceFrom step (init false 0 (some 1))
+      [.acquire 1 false, .release 2, .release 2, .mc 1, .step 1]).map
+      (fun r => (r.1.value, r.1.pc 1, r.1.extra, r.1.lost, r.2.getLast?)) =
+    some (1, Pc.idle, 2, 1, some Out.valueError) := by decide
+
+open Limiter in
+/-- the F1 history: CapacityLimiter(2), tasks 0 and 1 hold, 2 waits; `total_tokens = 1` then
+`= 2` wakes nobody (2 of 2 borrowed); only a release lets 2 in -/
+example :
+    (runFrom dstep (init (some 2))
+      [.acquire 0 false, .step 0, .acquire 1 false, .step 1, .acquire 2 false,
+       .setTotal (some 1), .setTotal (some 2)]).map
+      (fun s => (s.borrowers, s.queue, s.total, s.lowered, s.pc 2)) =
+    some ([1, 0], [(2, 2)], some 2, true, Pc.waiting) := by decide
+
+open Limiter in
+example :
+    (runFrom dstep (init (some 2))
+      [.acquire 0 false, .step 0, .acquire 1 false, .step 1, .acquire 2 false,
+       .setTotal (some 1), .setTotal (some 2), .release 0]).map
+      (fun s => (s.borrowers, s.queue, s.pc 2, s.holders)) =
+    some ([2, 1], [], Pc.granted, [1]) := by decide
+
+open Limiter in
+/-- the same history satisfies the two decidable preconditions -/
+example :
+    let es : List Ev := [.acquire 0 false, .step 0, .acquire 1 false, .step 1, .acquire 2 false,
+       .setTotal (some 1), .setTotal (some 2), .release 0]
+    OneWaitPerBorrower (init (some 2)) es = true ∧ ReleaseAfterReturn (init (some 2)) es = true := by
+  decide
+
+open Limiter in
+/-- raising the total with waiters and free capacity wakes exactly as many as fit, in order;
+infinity wakes all -/
+example :
+    (runFrom dstep (init (some 0))
+      [.acquire 0 false, .acquireOnBehalf 1 100 false, .acquire 2 false, .setTotal (some 2)]).map
+      (fun s => (s.borrowers, s.queue, s.pc 0, s.pc 1, s.pc 2)) =
+    some ([100, 0], [(2, 2)], Pc.granted, Pc.granted, Pc.waiting) := by decide
+
+open Limiter in
+example :
+    (runFrom dstep (init (some 0))
+      [.acquire 0 false, .acquireOnBehalf 1 100 false, .acquire 2 false, .setTotal none]).map
+      (fun s => (s.borrowers.length, s.queue)) = some (3, []) := by decide
+
+open Limiter in
+/-- hand-over cycle: 0 releases, the token is reserved for 1; a native cancel hits 1 before it
+runs; 1 gives the token back and 2 is notified -/
+example :
+    (runFrom dstep (init (some 1))
+      [.acquire 0 false, .step 0, .acquire 1 false, .acquire 2 false, .release 0, .mc 1,
+       .step 1]).map
+      (fun s => (s.borrowers, s.queue, s.pc 1, s.pc 2)) =
+    some ([2], [], Pc.idle, Pc.granted) := by decide
+
+open Limiter in
+/-- a waiter whose future is already cancelled is still notified (its entry is in the queue
+until it runs): it gives the token back when it runs (`grantedFC`) -/
+example :
+    (traceFrom dstep (init (some 1))
+      [.acquire 0 false, .step 0, .acquire 1 false, .acquire 2 false, .fc 1, .release 0,
+       .step 1]).map
+      (fun r => (r.1.borrowers, r.1.queue, r.1.pc 1, r.1.pc 2, r.2.getLast?)) =
+    some ([2], [], Pc.idle, Pc.granted, some Out.cancelled) := by decide
+
+open Limiter in
+/-- F8: `acquire_on_behalf_of(100)` by task 0 on the uncontended path, native cancel in the
+checkpoint: borrower 100's token is given back (not the caller's own) -/
+example :
+    (traceFrom dstep (init (some 2))
+      [.acquire 0 false, .step 0, .acquireOnBehalf 0 100 false, .mc 0, .step 0]).map
+      (fun r => (r.1.borrowers, r.1.holders, r.1.resv, r.2.getLast?)) =
+    some ([0], [0], [], some Out.cancelled) := by decide
+
+open Limiter in
+/-- the boundary of the claim: the same borrower waiting twice is *not* a disciplined history,
+and it does break the bookkeeping (task 1 is left waiting with no queue entry once task 0,
+whose entry it overwrote, is cancelled) -/
+example :
+    let es : List Ev := [.acquireOnBehalf 0 100 false, .acquireOnBehalf 1 100 false, .fc 0, .step 0]
+    OneWaitPerBorrower (init (some 0)) es = false ∧
+    (runFrom step (init (some 0)) es).map (fun s => (s.queue, s.pc 1)) =
+      some ([], Pc.waiting) := by decide
+
+end examples
 
 end AnyioModel.Props.C10
